@@ -203,6 +203,7 @@ type FindingJSON struct {
 	Inputs map[string]string `json:"inputs"`
 	Count  int               `json:"count"`
 	Known  string            `json:"known,omitempty"`
+	Sched  *SchedInfo        `json:"schedule,omitempty"`
 }
 
 func parseCase(s string) map[string]int64 {
@@ -316,7 +317,7 @@ func cmdExec(args []string) {
 		}
 		sort.Strings(res.Funcs)
 		for _, f := range ex.sortedFindings() {
-			res.Findings = append(res.Findings, FindingJSON{Kind: f.Kind, Label: f.Label, Pos: f.Pos, Stack: f.Stack, Inputs: f.Inputs, Count: f.Count, Known: f.Known})
+			res.Findings = append(res.Findings, FindingJSON{Kind: f.Kind, Label: f.Label, Pos: f.Pos, Stack: f.Stack, Inputs: f.Inputs, Count: f.Count, Known: f.Known, Sched: f.Sched})
 		}
 		if *second != "" {
 			res.Diff = ex.secondSolver(*second)
